@@ -213,6 +213,9 @@ type Driver struct {
 	// Load makes the provider see the given content (write + event / serve + poll) by calling the
 	// provider's own handler; it may panic.
 	Load func(data []byte, ctype string) error
+	// Extra (optional) runs after the inputs and returns further events (e.g. about the provider's
+	// background goroutine)
+	Extra func() []Event
 }
 
 func Run(t *testing.T, rec *Recorder, d Driver) {
@@ -307,6 +310,19 @@ func Run(t *testing.T, rec *Recorder, d Driver) {
 
 		if err := enc.Encode(ev); err != nil {
 			t.Fatalf("INFRA: %v", err)
+		}
+	}
+
+	extra := len(only) == 0
+	for id := range only {
+		extra = extra || strings.HasPrefix(id, "provider/watcher/")
+	}
+
+	if d.Extra != nil && extra {
+		for _, ev := range d.Extra() {
+			if err := enc.Encode(ev); err != nil {
+				t.Fatalf("INFRA: %v", err)
+			}
 		}
 	}
 }
